@@ -23,6 +23,17 @@
                                            cancelled => stopped
    These four hold for EVERY parameter record (no validity hypothesis) and for all pinned / repaired
    variants; they are steps towards the two theorems below, NOT those theorems.
+     stuck_threads_are_parked              (valid parameters, i_fixc = true) in a stuck configuration every
+                                           goroutine is a worker parked in its select without an armed timer;
+                                           closed / cancelled / non-empty queue => no goroutine at all
+
+   PROVED ONE HYPOTHESIS SHORT (rule 3)
+     done_not_early_partial, shutdown_completes_partial : the full statements below with the single extra
+     hypothesis [invK c] - the Layer-5 record (K, J, Q, cancel bridge; proof/PoolProofB5d.v) at the
+     configuration.  Every other invariant is discharged by reachability (lock discipline, life cycle,
+     goroutine ids, totalGo / timeoutGroup accounting, stuck analysis, agent-pool's ledger).  MISSING:
+     `invK` is preserved by every step (machine-checking in progress; all its conjuncts pass 126M random
+     model steps in exactly this encoding, and the checker flags the pinned i_fixa = false model).
 
    NOT PROVED YET (full statements; P with pvalid P, i_fixa P = i_fixb P = i_fixc P = true)
 
@@ -47,7 +58,8 @@
        discipline proved here: "at `<-idleTimer.C` after a failed Stop the timer has fired" (proved in
        scratch, waits for the goroutine-id layer), wrapper depth >= 1 (PoolProof7.Inv4), "range b.queue
        in ShutdownNow runs on a closed queue" (proved: closed_flag_accounting's layer). *)
-From Ekit Require Import Common Conc PoolModel PoolExamples PoolProofB PoolProofB0 PoolProofB1 PoolProofB2d PoolProofBz.
+From Ekit Require Import Common Conc PoolModel PoolProof PoolProof5 PoolExamples PoolProofB PoolProofB0 PoolProofB1 PoolProofB2d
+  PoolProofB4d PoolProofB5d PoolProofBz.
 
 (* On the code BEFORE the fix: commit 11c4414 (i_fixb = false): a schedule after which Shutdown has
    succeeded and returned, nothing can run any more, every accepted task is done - and the pool is in
@@ -113,3 +125,39 @@ Theorem closed_flag_accounting : forall P evs c, exec pstep_cfg (pinit P) evs = 
   (s_ictx (c_sh c) = true -> s_state (c_sh c) = SStopped).
 Proof. exact closed_flag_accounting_lemma. Qed.
 Print Assumptions closed_flag_accounting.
+
+(* ---------- the only way to be stuck (valid parameters, code as it is: i_fixc = true) ---------- *)
+(* In a stuck configuration every goroutine is a worker parked in its select whose idle timer is not armed
+   (no client call is in flight, nobody waits for a mutex, no timer drain / user task / range is pending);
+   and if the queue is closed, or the context cancelled, or the queue not empty, there is no goroutine
+   at all.  This is the liveness half of the argument for shutdown_completes. *)
+Theorem stuck_threads_are_parked : forall P evs c,
+  pvalid P -> i_fixc P = true -> exec pstep_cfg (pinit P) evs = Some c -> stuck c ->
+  (forall t x, lookup t (c_thr c) = Some x -> pc x = WParked /\ l_tm x <> TmArmed) /\
+  (s_closed (c_sh c) = true \/ s_ictx (c_sh c) = true \/ s_q (c_sh c) <> [] -> c_thr c = []).
+Proof. exact stuck_threads_are_parked_lemma. Qed.
+Print Assumptions stuck_threads_are_parked.
+
+(* ---------- the two target theorems, ONE hypothesis short (rule 3: _partial) ---------- *)
+(* [invK c] (proof/PoolProofB5d.v) = the Layer-5 record at configuration c: (K) live and not stopped =>
+   queue closed-and-empty or initGo <= counted non-timer workers + creations in progress, with its two
+   guards; (J) closing and totalGo = 0 => some goroutine is between its decrement and the CAS;
+   (Q) a goroutine that read totalGo = 0 => totalGo = 0; the cancel bridge.  It holds initially; what is
+   NOT proved yet is that every step preserves it.  Everything else the statements need (lock discipline,
+   life cycle, ids, counters, stuck analysis, agent-pool's ledger) is discharged. *)
+Theorem done_not_early_partial : forall P evs c,
+  pvalid P -> exec pstep_cfg (pinit P) evs = Some c -> invK c -> g_grace (c_gh c) = true ->
+  s_q (c_sh c) = [] /\
+  (forall t x, lookup t (c_thr c) = Some x -> g_cnt (pc x) = 0) /\
+  (forall i, PoolProof.tsum (held i) (c_thr c) = 0) /\
+  (forall i, In i (g_acc (c_gh c)) -> In i (g_done (c_gh c))).
+Proof. exact done_not_early_partial_lemma. Qed.
+Print Assumptions done_not_early_partial.
+
+Theorem shutdown_completes_partial : forall P evs c,
+  pvalid P -> i_fixc P = true -> exec pstep_cfg (pinit P) evs = Some c -> invK c ->
+  g_shut (c_gh c) = true -> stuck c ->
+  s_state (c_sh c) = SStopped /\ s_ictx (c_sh c) = true /\
+  (forall i, In i (g_acc (c_gh c)) -> In i (g_done (c_gh c))).
+Proof. exact shutdown_completes_partial_lemma. Qed.
+Print Assumptions shutdown_completes_partial.
